@@ -134,6 +134,8 @@ pub enum Stmt {
     ProcDef { name: String, prints: Vec<Expr>, result: Expr },
     /// `name =` newline block, result
     LetBlock { name: String, body: Vec<Stmt>, result: Expr },
+    /// one-line statements written on one line, separated by `; `
+    Seq(Vec<Stmt>),
 }
 
 #[derive(Clone, Debug, Default)]
@@ -171,10 +173,17 @@ pub struct GenCfg {
     /// C12: bindings are not printed automatically (so some stay unused) and definitions
     /// with side effects (print!, procedure calls, block bodies) are generated
     pub unused_defs: bool,
+    /// construct switches (C17 runs on the sub-fragment the transpiler handles)
+    pub no_while: bool,
+    pub no_interp: bool,
+    pub no_defaults: bool,
+    pub no_if_expr: bool,
+    pub no_range_loops: bool,
+    pub no_if_stmt: bool,
 }
 impl Default for GenCfg {
     fn default() -> Self {
-        GenCfg { max_stmts: 14, max_depth: 4, wild_strings: false, boundary_literals: true, loops: true, functions: true, exits: true, negative_bias: false, avoid_known: true, unused_defs: false }
+        GenCfg { max_stmts: 14, max_depth: 4, wild_strings: false, boundary_literals: true, loops: true, functions: true, exits: true, negative_bias: false, avoid_known: true, unused_defs: false, no_while: false, no_interp: false, no_defaults: false, no_if_expr: false, no_range_loops: false, no_if_stmt: false }
     }
 }
 
@@ -238,7 +247,19 @@ impl<'a> Gen<'a> {
             1 => 10 + self.t.pick(990) as u64,
             _ => {
                 self.feat("lit:nat>=2^31-or-boundary");
-                NAT_BOUNDARY[self.t.pick(NAT_BOUNDARY.len())]
+                if self.t.pick(2) == 0 {
+                    NAT_BOUNDARY[self.t.pick(NAT_BOUNDARY.len())]
+                } else {
+                    // every bit length 1..=64: 2**k - 1, 2**k, 2**k + 1 or a value in between
+                    let k = 1 + self.t.pick(63) as u32;
+                    let base = 1u64 << k;
+                    match self.t.pick(4) {
+                        0 => base - 1,
+                        1 => base,
+                        2 => base + 1,
+                        _ => base | ((self.t.next() as u64) << 16 | self.t.next() as u64) & (base - 1),
+                    }
+                }
             }
         }
     }
@@ -335,7 +356,7 @@ impl<'a> Gen<'a> {
         let w_var = if vars.is_empty() { 0 } else { 6 };
         let w_op = if deep { 0 } else { 7 };
         let w_call = if funcs.is_empty() { 0 } else { 9 };
-        let w_if = if deep { 0 } else { 1 };
+        let w_if = if deep || self.cfg.no_if_expr { 0 } else { 1 };
         let w_bm = if deep { 0 } else { 2 };
         let list_vars: Vec<(String, Ty)> = self.vars.iter().filter(|(_, t)| matches!(t, Ty::List(e) if e.fits(ty))).cloned().collect();
         let w_idx = if list_vars.is_empty() || deep { 0 } else { 3 };
@@ -399,6 +420,17 @@ impl<'a> Gen<'a> {
     fn op_expr(&mut self, ty: &Ty, depth: usize) -> Expr {
         let b = |op: &'static str, l: Expr, r: Expr| Expr::Bin(op, Box::new(l), Box::new(r));
         match ty {
+            Ty::Nat if self.t.chance(1, 16) => {
+                // a long sum: branch and loop bodies longer than 255 code units
+                self.feat("expr:long-sum");
+                let n = 12 + self.t.pick(30);
+                let mut acc = self.atom(&Ty::Nat);
+                for _ in 0..n {
+                    let x = self.atom(&Ty::Nat);
+                    acc = b(if self.t.pick(3) == 0 { "*" } else { "+" }, acc, x);
+                }
+                acc
+            }
             Ty::Nat => match self.t.weighted(&[4, 3, 2, 2, 1]) {
                 0 => b("+", self.num_operand(&Ty::Nat, depth), self.num_operand(&Ty::Nat, depth)),
                 1 => b("*", self.num_operand(&Ty::Nat, depth), self.num_operand(&Ty::Nat, depth)),
@@ -453,6 +485,35 @@ impl<'a> Gen<'a> {
                 }
                 _ => self.interp(depth),
             },
+            Ty::Bool if self.t.chance(1, 12) => {
+                // a long and/or chain: jump distances beyond one byte, right- or left-nested
+                self.feat("expr:long-bool-chain");
+                let n = 8 + self.t.pick(10);
+                let op: &'static str = if self.t.pick(2) == 0 { "and" } else { "or" };
+                let right = self.t.pick(2) == 0;
+                let mut items: Vec<Expr> = (0..n)
+                    .map(|_| {
+                        let l = self.atom(&Ty::Nat);
+                        let r = self.atom(&Ty::Nat);
+                        let cmp = ["==", "!=", "<", "<=", ">", ">="][self.t.pick(6)];
+                        b(cmp, b("+", l, Expr::Nat(self.t.pick(9) as u64)), r)
+                    })
+                    .collect();
+                if right {
+                    let mut acc = items.pop().unwrap();
+                    while let Some(x) = items.pop() {
+                        acc = b(op, x, acc);
+                    }
+                    acc
+                } else {
+                    let mut it = items.into_iter();
+                    let mut acc = it.next().unwrap();
+                    for x in it {
+                        acc = b(op, acc, x);
+                    }
+                    acc
+                }
+            }
             Ty::Bool => match self.t.weighted(&[5, 2, 2, 1]) {
                 0 => {
                     let ot = [Ty::Int, Ty::Nat, Ty::Float, Ty::Str][self.t.weighted(&[4, 3, 2, 2])].clone();
@@ -481,6 +542,10 @@ impl<'a> Gen<'a> {
     }
 
     fn interp(&mut self, depth: usize) -> Expr {
+        if self.cfg.no_interp {
+            self.feat("excluded:interpolation");
+            return Expr::Str(self.str_lit());
+        }
         self.feat("expr:interpolation");
         let n = 1 + self.t.pick(2);
         let mut parts = vec![];
@@ -577,8 +642,46 @@ impl<'a> Gen<'a> {
 
     pub fn program(&mut self) -> Program {
         let n = 2 + self.t.pick(self.cfg.max_stmts.saturating_sub(2).max(1));
-        let stmts = self.block(n, true);
-        Program { stmts }
+        let mut stmts = self.block(n, true);
+        // forward references: a function may be defined after a function that calls it
+        let mut i = 0;
+        while i + 1 < stmts.len() {
+            let swap = match (&stmts[i], &stmts[i + 1]) {
+                (Stmt::Func { name: callee, .. }, Stmt::Func { body, result, .. }) => {
+                    (expr_calls(result, callee) || body.iter().any(|s| stmt_calls(s, callee))) && self.t.chance(1, 2)
+                }
+                _ => false,
+            };
+            if swap {
+                self.feat("order:forward-reference");
+                stmts.swap(i, i + 1);
+                i += 2;
+            } else {
+                i += 1;
+            }
+        }
+        // `a; b` on one line
+        let mut out: Vec<Stmt> = vec![];
+        for s in stmts {
+            let joinable = is_one_liner(&s);
+            if joinable && self.t.chance(1, 6) {
+                if let Some(prev) = out.last_mut() {
+                    if is_one_liner(prev) || matches!(prev, Stmt::Seq(_)) {
+                        self.feat("layout:semicolon");
+                        let p = std::mem::replace(prev, Stmt::Seq(vec![]));
+                        let mut v = match p {
+                            Stmt::Seq(v) => v,
+                            other => vec![other],
+                        };
+                        v.push(s);
+                        *prev = Stmt::Seq(v);
+                        continue;
+                    }
+                }
+            }
+            out.push(s);
+        }
+        Program { stmts: out }
     }
 
     fn block(&mut self, n: usize, top: bool) -> Vec<Stmt> {
@@ -678,7 +781,10 @@ impl<'a> Gen<'a> {
         let w_loop = if self.cfg.loops && self.loop_depth < 2 { 3 } else { 0 };
         let w_exit = if self.cfg.exits && top && !nested { 1 } else { 0 };
         // 0 print, 1 let, 2 function, 3 lambda, 4 for-range, 5 for-list, 6 while, 7 if!, 8 pattern, 9 assert, 10 exit
-        match self.t.weighted(&[6, 7, w_func, w_func, w_loop, w_loop, w_loop / 2, 2, 1, 1, w_exit]) {
+        let w_while = if self.cfg.no_while { 0 } else { w_loop / 2 };
+        let w_range = if self.cfg.no_range_loops { 0 } else { w_loop };
+        let w_ifs = if self.cfg.no_if_stmt { 0 } else { 2 };
+        match self.t.weighted(&[6, 7, w_func, w_func, w_range, w_loop, w_while, w_ifs, 1, 1, w_exit]) {
             0 => self.print_stmt(),
             1 => {
                 let ty = self.any_ty();
@@ -832,7 +938,7 @@ impl<'a> Gen<'a> {
         for _ in 0..np {
             let ty = self.scalar_ty();
             let name = self.fresh("p");
-            let default = if seen_default || self.t.chance(1, 4) {
+            let default = if !self.cfg.no_defaults && (seen_default || self.t.chance(1, 4)) {
                 seen_default = true;
                 self.feat("func:default-param");
                 Some(self.literal(&ty))
@@ -865,6 +971,34 @@ impl<'a> Gen<'a> {
         let ret_ann = self.t.chance(2, 3);
         self.funcs.push(FuncSig { name: name.clone(), params: params.clone(), ret: ret.clone(), is_lambda: false });
         Stmt::Func { name, params, ret, ret_ann, body, result }
+    }
+}
+
+fn is_one_liner(s: &Stmt) -> bool {
+    match s {
+        Stmt::Let { .. } | Stmt::Print(_) | Stmt::Lambda { .. } | Stmt::Assert(_) | Stmt::PatList { .. } | Stmt::PatTuple { .. } => true,
+        Stmt::Func { body, .. } => body.is_empty(),
+        _ => false,
+    }
+}
+
+fn expr_calls(e: &Expr, name: &str) -> bool {
+    match e {
+        Expr::Call(f, pos, kw) => f == name || pos.iter().any(|x| expr_calls(x, name)) || kw.iter().any(|(_, x)| expr_calls(x, name)),
+        Expr::Bin(_, l, r) | Expr::Index(l, r) | Expr::In(l, r) => expr_calls(l, name) || expr_calls(r, name),
+        Expr::Not(x) | Expr::Neg(x) | Expr::Ascribe(x, _) => expr_calls(x, name),
+        Expr::Builtin(_, a) | Expr::List(a) | Expr::PrintCall(a) => a.iter().any(|x| expr_calls(x, name)),
+        Expr::Method(r, _, a) => expr_calls(r, name) || a.iter().any(|x| expr_calls(x, name)),
+        Expr::If(c, a, b) => expr_calls(c, name) || expr_calls(a, name) || expr_calls(b, name),
+        Expr::Interp(parts) => parts.iter().any(|(_, e)| e.as_ref().map(|x| expr_calls(x, name)).unwrap_or(false)),
+        _ => false,
+    }
+}
+
+fn stmt_calls(s: &Stmt, name: &str) -> bool {
+    match s {
+        Stmt::Let { e, .. } => expr_calls(e, name),
+        _ => false,
     }
 }
 
@@ -1034,9 +1168,22 @@ pub fn erg_stmt(s: &Stmt, level: usize, out: &mut String) {
                 })
                 .collect();
             let r = if *ret_ann { format!(": {}", ret.erg()) } else { String::new() };
-            out.push_str(&format!("{i}{name}({}){r} =\n", ps.join(", ")));
-            erg_block(body, level + 1, out);
-            out.push_str(&format!("{}{}\n", ind(level + 1), erg_expr(result)));
+            if body.is_empty() && !params.is_empty() {
+                out.push_str(&format!("{i}{name}({}){r} = {}\n", ps.join(", "), erg_expr(result)));
+            } else {
+                out.push_str(&format!("{i}{name}({}){r} =\n", ps.join(", ")));
+                erg_block(body, level + 1, out);
+                out.push_str(&format!("{}{}\n", ind(level + 1), erg_expr(result)));
+            }
+        }
+        Stmt::Seq(v) => {
+            let mut parts = vec![];
+            for s in v {
+                let mut one = String::new();
+                erg_stmt(s, 0, &mut one);
+                parts.push(one.trim_end().to_string());
+            }
+            out.push_str(&format!("{i}{}\n", parts.join("; ")));
         }
         Stmt::Lambda { name, params, body } => {
             let ps: Vec<String> = params.iter().map(|(n, t)| format!("{n}: {}", t.erg())).collect();
@@ -1102,6 +1249,11 @@ pub fn py_stmt(s: &Stmt, level: usize, out: &mut String) {
     let i = ind(level);
     match s {
         Stmt::Let { name, e, .. } => out.push_str(&format!("{i}{name} = {}\n", py_expr(e))),
+        Stmt::Seq(v) => {
+            for s in v {
+                py_stmt(s, level, out);
+            }
+        }
         Stmt::Print(v) => out.push_str(&format!("{i}print({})\n", v.iter().map(py_expr).collect::<Vec<_>>().join(", "))),
         Stmt::Func { name, params, body, result, .. } => {
             let ps: Vec<String> = params
